@@ -192,6 +192,12 @@ def c05(tier, seed, work):
                store_consts(Buckets={"bkt1"}, KeySetName="ab", CfgName="memenabled", Bodies={"x1"}, MaxVids=3, Ghosts=False,
                             OpNames={"PutObject", "DeleteMultiMixed", "DeleteObject", "GetObject"}),
                ["mem"], small=True, **st)
+    # copies between two versioned keys that carry different metadata (the copy requests carry every spelling of
+    # x-amz-metadata-directive): every earlier version keeps exactly its own metadata, read by id
+    tour_stage(rep, work, "ver-2k-copy-metadata", "MC_Store",
+               store_consts(Buckets={"bkt1"}, KeySetName="ab", CfgName="memenabled", Bodies={"x1"}, MaxVids=3, Ghosts=False,
+                            OpNames={"PutMeta", "PutMetaB", "CopyObject", "GetObjectVersion", "HeadObjectVersion"}),
+               ["mem"], small=True, **st)
     # beyond the small scope: a key versioned after the backend has issued 99990 version ids (the ids' leading digits
     # change at 100000), read by id and deleted newest first
     conc_stage(rep, work, "scale-version-counter", ["mem"], [1], runs=0, ops=0, keys=1, gated=False, big="counter")
